@@ -374,7 +374,7 @@ func PropC09(c *vs.Case, f Factory, o RolloutOpts) error {
 	}
 	edits := []int{1}
 	midSyncs := 0
-	if c.Bool() {
+	if !o.SingleEdit && c.Bool() {
 		second := 1
 		if o.Scale && c.Bool() {
 			second = 3 + c.Int(2)
